@@ -7,8 +7,11 @@ from core import Nat
 
 
 def mrts_grid(g):
-    # MRTS/4 hits half-gaps k/(2g) exactly
-    return [Fr(0), Fr(2, g), Fr(4, g), Fr(2)]
+    # MRTS/4 hits half-gaps k/(2g) exactly (2/g, 4/g: ties); 2 and 6/g are thresholds that actually
+    # widen windows / floor the normalisation on the grid (a distance j/g lies strictly between
+    # the plain and the thresholded window only if MRTS > 4/g)
+    # order matters: callers slice [:2] / [:3] and must get an effective threshold first
+    return [Fr(0), Fr(6, g), Fr(4, g), Fr(2), Fr(2, g)]
 
 
 def maxtau_grid(g):
